@@ -145,6 +145,9 @@ pub enum ROp {
     CloseLane { lane: u8 },
     /// The agent task completes and drops its context.
     AgentEnd,
+    /// Poll the system until it is idle, then the remote reads at most n bytes. (If the read wakes
+    /// the idle system, the remote's writer was parked on a full channel.)
+    ProbeRead { r: u16, n: usize },
 }
 
 #[derive(Clone, Debug, Serialize, Deserialize)]
@@ -153,6 +156,8 @@ pub struct Case {
     pub lanes: Vec<LaneSpec>,
     /// lane 0 may emit events with an empty body
     pub allow_empty: bool,
+    /// map lanes may emit an operation whose key is not UTF-8 (the runtime discards such events)
+    pub bad_keys: bool,
     pub ops: Vec<ROp>,
 }
 
@@ -202,7 +207,7 @@ fn arb_rop() -> impl Strategy<Value = ROp> {
         4 => (any::<u16>(), arb_req_lane()).prop_map(|(r, lane)| ROp::Sim(Op::Unlink { r, lane })),
         2 => (any::<u16>(), arb_req_lane()).prop_map(|(r, lane)| ROp::Sim(Op::Cmd { r, lane, body: "7".into() })),
         22 => arb_sched_op().prop_map(ROp::Sim),
-        1 => any::<u16>().prop_map(|r| ROp::Sim(Op::Drop { r })),
+        8 => (any::<u16>(), arb_nbytes()).prop_map(|(r, n)| ROp::ProbeRead { r, n }),
         5 => (0u8..3).prop_map(|lane| ROp::LaneRead { lane }),
         14 => (0u8..3, any::<u8>()).prop_map(|(lane, shape)| ROp::Emit { lane, id: 0, shape }),
         7 => (0u8..3, any::<u16>(), any::<u8>()).prop_map(|(lane, pick, shape)| ROp::SyncEmit { lane, pick, id: 0, shape }),
@@ -227,11 +232,12 @@ pub fn arb_case(max_ops: usize) -> impl Strategy<Value = Case> {
         arb_params(),
         proptest::collection::vec(arb_lane_spec(), 2..=3),
         prop_oneof![3 => Just(false), 1 => Just(true)],
+        prop_oneof![5 => Just(false), 1 => Just(true)],
         proptest::collection::vec(arb_rop(), 1..max_ops),
         // faults inserted at generated positions (0-2 per case)
         proptest::collection::vec((any::<u16>(), arb_fault(), any::<bool>()), 0..3),
     )
-        .prop_map(|(params, lanes, allow_empty, mut ops, faults)| {
+        .prop_map(|(params, lanes, allow_empty, bad_keys, mut ops, faults)| {
             for (pos, f, settle_first) in faults {
                 let at = pick_index(pos, ops.len() + 1);
                 ops.insert(at, f);
@@ -255,6 +261,7 @@ pub fn arb_case(max_ops: usize) -> impl Strategy<Value = Case> {
                 params,
                 lanes,
                 allow_empty,
+                bad_keys,
                 ops: all,
             }
         })
@@ -361,7 +368,7 @@ impl HLane {
         }
     }
 
-    fn emit(&mut self, clock: &AtomicU64, target: Option<Uuid>, id: u32, shape: u8, allow_empty: bool) {
+    fn emit(&mut self, clock: &AtomicU64, target: Option<Uuid>, id: u32, shape: u8, allow_empty: bool, bad_keys: bool) {
         if !self.can_emit() {
             return;
         }
@@ -396,6 +403,13 @@ impl HLane {
                         (MapOperation::Remove { key }, EmKind::Event(e))
                     }
                     8 => (MapOperation::Clear, EmKind::Event(b"@clear".to_vec())),
+                    _ if !bad_keys => {
+                        let mut e = b"@update(key:".to_vec();
+                        e.extend_from_slice(&key);
+                        e.extend_from_slice(b") ");
+                        e.extend_from_slice(&val);
+                        (MapOperation::Update { key, value: val }, EmKind::Event(e))
+                    }
                     _ => (
                         MapOperation::Update {
                             key: vec![0xff, 0xfe],
@@ -628,6 +642,10 @@ fn settle_all(sim: &mut Sim, lanes: &mut [HLane], clock: &AtomicU64) {
         for l in lanes.iter_mut() {
             progress += l.read_input(clock);
         }
+        // the system may have made room in a lane's output channel
+        for l in lanes.iter_mut() {
+            progress += l.flush(clock, usize::MAX);
+        }
         if progress == 0 {
             break;
         }
@@ -673,7 +691,10 @@ pub fn execute(case: &Case) -> Obs {
         if !init_failed {
             for op in &case.ops {
                 match op {
-                    ROp::Sim(Op::Read { r, n }) if !sim.remotes.is_empty() => {
+                    ROp::Sim(Op::Read { r, n }) | ROp::ProbeRead { r, n } if !sim.remotes.is_empty() => {
+                        if matches!(op, ROp::ProbeRead { .. }) {
+                            sim.poll(10_000);
+                        }
                         let idx = pick_index(*r, sim.remotes.len());
                         let idle = !sim.is_woken() && !sim.is_done();
                         let before = sim.remotes[idx].bytes_read;
@@ -713,13 +734,13 @@ pub fn execute(case: &Case) -> Obs {
                     }
                     ROp::Emit { lane, id, shape } => {
                         let li = *lane as usize % nl;
-                        lanes[li].emit(&clock, None, *id, *shape, case.allow_empty && li == 0);
+                        lanes[li].emit(&clock, None, *id, *shape, case.allow_empty && li == 0, case.bad_keys);
                     }
                     ROp::SyncEmit { lane, pick, id, shape } => {
                         let li = *lane as usize % nl;
                         if !lanes[li].pending_syncs.is_empty() {
                             let t = lanes[li].pending_syncs[pick_index(*pick, lanes[li].pending_syncs.len())];
-                            lanes[li].emit(&clock, Some(t), *id, *shape, case.allow_empty && li == 0);
+                            lanes[li].emit(&clock, Some(t), *id, *shape, case.allow_empty && li == 0, case.bad_keys);
                         }
                     }
                     ROp::SyncDone { lane, pick } => {
@@ -749,6 +770,7 @@ pub fn execute(case: &Case) -> Obs {
                             tx.trigger();
                         }
                     }
+                    ROp::ProbeRead { .. } => {}
                 }
             }
         }
